@@ -96,7 +96,7 @@ func (w *World) checkLinearizable() {
 		var in linzIn
 		var out linzOut
 		switch cr.Kind {
-		case OpAdd, OpAddMulti:
+		case OpAdd, OpAddMulti, OpCommit:
 			in = linzIn{Kind: "add", Tables: cr.Written, Cfg: w.Spec.Cfg}
 			switch {
 			case cr.Class == "ok":
